@@ -22,7 +22,7 @@ theorem entry_points : Generated.entryPoints = Expected.entryPoints := rfl
 /-- Every unmarshalling entry point reaches the one decoder and preprocesses; every marshalling
 entry point reaches the one encoder. -/
 theorem entry_points_funnel : ∀ p ∈ Generated.entryPoints,
-    p.2 = "PreprocessFlag readFeatureFlag" ∨ p.2 = "PreprocessSegment readSegment" ∨
-    p.2 = "marshalFeatureFlagToWriter" ∨ p.2 = "marshalSegmentToWriter" := by decide
+    p.2 = "‹flag-decoder› ‹flag-preprocess›" ∨ p.2 = "‹segment-decoder› ‹segment-preprocess›" ∨
+    p.2 = "‹flag-encoder›" ∨ p.2 = "‹segment-encoder›" := by decide
 
 end LD.Obligations
